@@ -24,7 +24,7 @@ RULE = (
 ASSUMPTIONS = [
     "x86-64 ELF only and one code section in the generated modules (the byte bookkeeping is ISA independent; the nop used for padding is the only ISA-specific byte, taken from ABI.nop())",
     "requests are registered through insert_at / replace_at / delete_at with explicit offsets on instruction boundaries (scopes that search for an offset are C07)",
-    "a request set that apply() refuses counts as a violation unless the refusal is one of three classes recognised on the input alone: an insertion at the end of a block whose tail is deleted in the same batch (known finding), a patch that ends in a label or call at the end of a block that is not followed by code (documented zero-sized-block limit), a patch branching to a label of a block deleted in the same batch (finding recorded under C09)",
+    "a request set that apply() refuses counts as a violation unless the refusal is one of three classes recognised on the input alone: an insertion at the end of a block whose tail is deleted in the same batch (known finding), a patch that ends in a label or call at the end of a block that is not followed by code (documented zero-sized-block limit), a patch branching to a label of a block deleted in the same batch when that label now stands on a data block (the assembler rightly refuses)",
     "alignment: a block whose bytes are all deleted keeps its alignment request exactly when the rewritten module still records one for it (the code drops the entry when the block is removed and keeps it when the block stays as a zero-sized block); C01 allows padding demanded by alignment metadata",
 ]
 TRUSTED = [
